@@ -97,20 +97,28 @@ def check_storage(case, a, snap, x, clock, out, portf_T):
     else:
         ends = steps
     if a.get('block_size'):
+        # generated with start_level == end_level: the physical (continuous) level must respect the bounds at every step and be back at
+        # that level at every block end. Block ends are derived independently (asset start + k * block size); if a daylight-saving switch lies
+        # within two days before the start or inside the horizon, EAO's absolute-time arithmetic may place them one step off: then only the bounds
+        # and the final level are claimed.
         B = pd.Timedelta(a['block_size']) if a['block_size'] not in ('d',) else pd.Timedelta(days=1)
-        t0 = clock.points[steps[0]]
-        blk = np.array([int((clock.points[t] - t0) / B) for t in steps])
-        ok_b = True; ok_r = True; worst = None
-        for b in np.unique(blk):
-            S = steps[blk == b]
-            lev = a.get('start_level', 0.) + np.cumsum(delta[S])
-            if lev.min() < -tol or lev.max() > size + tol:
-                ok_b = False; worst = [int(b), float(lev.min()), float(lev.max())]
-            if abs(lev[-1] - a.get('end_level', 0.)) > tol:
-                ok_r = False; worst = [int(b), 'end', float(lev[-1])]
-        case.check('storage.level_in_bounds', ok_b, nonvacuous=moved, **who, blocks=True, worst=worst, size=size)
-        case.check('storage.blocks_return_to_level', ok_r, nonvacuous=moved and len(np.unique(blk)) > 1, **who, worst=worst, end_level=a.get('end_level', 0.))
         lev_full = a.get('start_level', 0.) + np.cumsum(delta)
+        le = lev_full[steps]
+        case.check('storage.level_in_bounds', bool(le.min() >= -tol and le.max() <= size + tol), nonvacuous=moved, **who, blocks=True, min=float(le.min()), max=float(le.max()), size=size)
+        case.check('storage.end_level', abs(lev_full[steps[-1]] - a.get('end_level', 0.)) <= tol, nonvacuous=moved or infl != 0, **who, last_level=float(lev_full[steps[-1]]), end_level=a.get('end_level', 0.))
+        ext = pd.date_range(start=clock.points[0] - pd.Timedelta(days=2), end=clock.points[-1] + pd.Timedelta(days=1), freq='h')
+        off = {p.utcoffset() for p in ext}
+        if len(off) == 1:
+            t0 = clock.points[steps[0]]
+            blk = np.array([int((clock.points[t] - t0) / B) for t in steps])
+            ok_r = True; worst = None
+            for b in np.unique(blk):
+                S = steps[blk == b]
+                if abs(lev_full[S[-1]] - a.get('end_level', 0.)) > tol:
+                    ok_r = False; worst = [int(b), 'end', float(lev_full[S[-1]])]
+            case.check('storage.blocks_return_to_level', ok_r, nonvacuous=moved and len(np.unique(blk)) > 1, **who, worst=worst, end_level=a.get('end_level', 0.), block_size=a['block_size'])
+        else:
+            case.feature('blocks_near_dst_switch')
     else:
         lev_full = a.get('start_level', 0.) + np.cumsum(delta)
         le = lev_full[ends]
